@@ -13,8 +13,15 @@ def to_scenario(sid, hist, typ, rng):
     sc = {"id": sid, "type": typ, "strategy": "globalAllocate", "local": local, "global": glob, "localBurst": local * 2, "globalBurst": glob * 2, "nilClientSets": False, "steps": [{"k": "measure"}]}
     qmap = {3: local, 4: local + 1, 10: glob, 11: glob + 1, 250: 25 * glob}
     for h in hist:
+        if h["k"] in ("hold", "unhold"):
+            # requests that STAY in flight across the following steps (max-in-flight only): admitted until the limiter refuses
+            if typ == "mif":
+                sc["steps"] += [{"k": "hold", "q": 3 * glob}, {"k": "measure"}] if h["k"] == "hold" else [{"k": "unhold"}, {"k": "measure"}]
+            continue
         if h["k"] == "ready":
             sc["steps"].append({"k": "ready", "v": h["q"] == 1})
+        elif h["k"] in ("empty", "wrongtype"):
+            sc["steps"].append({"k": "reply", "q": 25 * glob, "b": 50 * glob, "err": h["k"]})
         elif h["k"] == "reply":
             q = qmap.get(h["q"], h["q"])
             b = rng.choice([q, 2 * q, 50 * glob]) if typ == "tb" else 0
@@ -129,6 +136,15 @@ def main(tier, replay):
             if mc.violation:
                 raise Infra("RemoteClient.tla (repaired variant) violates %s" % mc.violated())
             states, trans = mc.distinct, mc.generated
+            # in-flight requests across limiter switches: one shared count satisfies the property, the implementation's split count is refuted
+            # (the open known finding SplitAccounting)
+            cfg_if = open(os.path.join(vlib.VERIF, "specs", "limiter", "RemoteClient.cfg")).read().replace("INVARIANTS NeverAboveGlobal LocalWhenUnusable", "INVARIANTS InFlightWithinGlobal")
+            for acc, expect in (("shared", False), ("split", True)):
+                m2 = vlib.tlc("limiter", "RemoteClient", "RemoteClientIF.cfg", workers=8, timeout=900, files={"RemoteClientIF.cfg": cfg_if},
+                              consts={"Accounting": '"%s"' % acc, "MaxSteps": 5 if tier == "quick" else 6})
+                if bool(m2.violation) != expect:
+                    raise Infra("RemoteClient.tla accounting %s: unexpected result %s" % (acc, m2.violated()))
+                states, trans = states + m2.distinct, trans + m2.generated
             n = 150 if tier == "quick" else 2500
             gen = vlib.tlc("limiter", "RemoteClientGen", "RemoteClientGen.cfg", workers=1, timeout=900, simulate="num=%d" % n, depth=6, tlc_seed=seed)
             hists = list({vlib.canon(h): h for h in gen.json_prints("HIST")}.values())
@@ -137,6 +153,14 @@ def main(tier, replay):
             if len(hists) < 10:
                 raise Infra("too few histories")
             scs = [to_scenario(i + 1, h, "mif" if i % 3 else "tb", rng) for i, h in enumerate(hists)]
+            # directed: requests held across a readiness flip / the first answer / a lowered quota / an outage
+            for i, hist in enumerate([
+                    [{"k": "hold", "q": 0}, {"k": "ready", "q": 1}, {"k": "reply", "q": 10}, {"k": "hold", "q": 0}, {"k": "unhold", "q": 0}],
+                    [{"k": "ready", "q": 1}, {"k": "reply", "q": 7}, {"k": "hold", "q": 0}, {"k": "ready", "q": 0}, {"k": "hold", "q": 0}, {"k": "unhold", "q": 0}, {"k": "ready", "q": 1}],
+                    [{"k": "ready", "q": 1}, {"k": "reply", "q": 10}, {"k": "hold", "q": 0}, {"k": "reply", "q": 4}, {"k": "reply", "q": 10}, {"k": "unhold", "q": 0}],
+                    [{"k": "ready", "q": 1}, {"k": "hold", "q": 0}, {"k": "reply", "q": 6}, {"k": "hold", "q": 0}, {"k": "replyerr", "q": 0}, {"k": "unhold", "q": 0}],
+                    [{"k": "ready", "q": 1}, {"k": "reply", "q": 5}, {"k": "hold", "q": 0}, {"k": "empty", "q": 0}, {"k": "hold", "q": 0}, {"k": "reply", "q": 9}, {"k": "hold", "q": 0}, {"k": "unhold", "q": 0}]]):
+                scs.append(to_scenario(600001 + i, hist, "mif", rng))
             # global-COUNT strategy
             for variant, expect in (("fixed", False), ("pinned", True)):
                 gm = vlib.tlc("limiter", "GlobalCount", "GlobalCount.cfg", workers=8, timeout=900, consts={"Variant": '"%s"' % variant, "MaxSteps": 6 if tier == "quick" else 8})
@@ -174,12 +198,14 @@ def main(tier, replay):
             known = True
             for e in t["events"]:
                 e = dict(e)
-                e.setdefault("q", 0); e.setdefault("b", 0); e.setdefault("v", False); e.setdefault("window", 0); e.setdefault("admitted", 0)
+                e.setdefault("q", 0); e.setdefault("b", 0); e.setdefault("v", False); e.setdefault("window", 0); e.setdefault("admitted", 0); e.setdefault("got", 0); e.setdefault("want", 0)
                 if e["k"] == "known":
                     known = e["v"]
                     continue
                 if e["k"] == "ready":
                     e["v"] = e["v"] and known
+                if e["k"] == "reply" and e.get("kind") in ("empty", "wrongtype"):
+                    e["k"] = "replybad"
                 if e["k"] == "acq":
                     err = e.get("err", "")
                     e["gk"] = "tooold" if err == "RequestIDTooOld" else "fail" if err else "accept" if e.get("accept") else "reject"
@@ -190,12 +216,25 @@ def main(tier, replay):
                        "nilcs": sc["nilClientSets"], "events": evs})
         tr_p = os.path.join(wd, "remote.ndjson")
         vlib.write_ndjson(tr_p, tl)
-        tv = vlib.tlc("limiter", "TraceRemote", "TraceRemote.cfg", workers=8, timeout=1800, consts={"TraceFile": '"%s"' % tr_p})
-        rejected = {}
-        for l in tv.out.splitlines():
-            if l.startswith('<<"REJECT"'):
-                parts = [x.strip() for x in l.strip("<>").split(",")]
-                rejected[parts[1]] = int(parts[2])
+        def validate(devs):
+            tv = vlib.tlc("limiter", "TraceRemote", "TraceRemote.cfg", workers=8, timeout=1800,
+                          consts={"TraceFile": '"%s"' % tr_p, "Deviations": "{" + ", ".join('"%s"' % d for d in devs) + "}"})
+            rej = {}
+            for l in tv.out.splitlines():
+                if l.startswith('<<"REJECT"'):
+                    parts = [x.strip() for x in l.strip("<>").split(",")]
+                    rej[parts[1]] = int(parts[2])
+            return tv, rej
+
+        tv, rejected = validate([])
+        known = vlib.known_findings(PROP)
+        explained = 0
+        if rejected and known:
+            tv2, still = validate([k["deviation"] for k in known])
+            explained = sum(1 for sid in rejected if sid not in still)
+            if explained:
+                v.known_finding(known[0]["what"])
+            rejected = still
         by_id = {str(t["id"]): t for t in tl}
         for sid, line in sorted(rejected.items()):
             evs = by_id[sid]["events"]
@@ -205,6 +244,7 @@ def main(tier, replay):
         ms = [e for t in tl for e in t["events"] if e["k"] == "measure"]
         cov = {"states": states + tv.distinct, "transitions": trans + tv.generated, "traces_validated_against_impl": len(tl) - len(rejected) + rtraces,
                "samples": [tl[0]["events"][:8]], "evaluations": len(ms) + rsamples, "readiness_samples_real_clientset": rsamples, "distinct_nontrivial": len({vlib.canon(t["events"]) for t in tl}),
+               "traces_with_requests_held_across_steps": sum(1 for t in tl if any(e["k"] == "hold" for e in t["events"])), "traces_explained_by_known_finding_SplitAccounting": explained,
                "rule": "one evaluation = one admission measurement on the real gateway limiter; histories: TLC -simulate over RemoteClient.tla (replies -300,-1,0,1,L,L+1,G,G+1,25G, reply errors, readiness flaps), "
                        "max-in-flight and token-bucket schemas, plus 'no client set' and 'leader unknown'",
                "checker_cmd": "tlc RemoteClient.tla; tlc -simulate RemoteClientGen.tla; tlc TraceRemote.tla", "exhaustive": False}
